@@ -3,6 +3,18 @@
 import json
 ENV = "GOFLAGS=-mod=mod GOPROXY=off GOSUMDB=off GOTOOLCHAIN=local"
 claimed = {
+ "C01": dict(ref="DESIGN.md §4 C01",
+   text="Bounded symbolic execution of the real vhostTrie (Insert/Match/matchHost/matchPath/splitHostPath incl. strings.Split/Join/ToLower, net.SplitHostPort from their SSA): for 1..2 sites (3 thorough) over host patterns {a,b,*}-labels / catch-all spellings x path prefixes, and every request host (any case, optional port) / path within the bound, Match returns a site acceptable to a declarative statement-level spec; and two tries built in different declaration orders agree. Every path ends in an SMT query; counterexamples are replayed natively.",
+   note="Bounds: sites <= 2 (quick) / 3 (thorough); labels are one byte from {a,b,*} (request {a,b,A}); site path '/' + <= 1 byte, request path '/' + <= 2 bytes from {a,b,/}; duplicate site keys excluded (documented precondition). The server entry point (serveHTTP, 404/421) is not yet covered by this check. Trusted: go/ssa, engine semantics (validated by native replay of sampled witnesses), z3."),
+ "C05": dict(ref="DESIGN.md §4 C05",
+   text="Bounded symbolic execution of every load-balancing policy's real Select (Random, LeastConn, RoundRobin, IPHash, URIHash, First, Header), hostByHashing, UpstreamHost.Down/Full/Available and the CheckDown closure built by staticUpstream.NewHost: pool sizes 1..5 (8 thorough) with fully symbolic per-backend state (Unhealthy, Fails, Conns, MaxConns, MaxFails), symbolic keys / 32-bit cursor / rand value; asserts result!=nil iff an available backend exists, result available and in pool, first=earliest, least_conn minimal, round_robin next-in-cyclic-order and even, hash policies stable.",
+   note="Bounds: pool <= 5 (8 thorough); real FNV-1a hash only for keys <= 2 bytes and pools <= 3, larger pools with the hash summarised as a free 32-bit value (superset; native replay searches a key with the same residue); rand.Int() is an arbitrary non-negative int. The retry loop of Proxy.ServeHTTP (try_duration/fail_timeout) is not covered yet."),
+ "C13": dict(ref="DESIGN.md §4 C13",
+   text="SMT-decided kernels on the real fastcgi client code: header.init for every content length 0..65535 (padding < 8, 8-aligned), encodeSize for every size < 2^31 against the specification decoder, writeRecord wire layout for symbolic contents, and streamReader over every framing of <= 2 (3 thorough) stdout/stderr/other records with symbolic payloads, padding, read chunking and reader buffer sizes.",
+   note="Bounds: record content <= 9 bytes (17 thorough) in writeRecord; stream harness payload <= 2 bytes per record, padding <= 1. encoding/binary.Read/Write are modelled by an intrinsic (fixed big-endian layout). writePairs, buildEnv, the body path and extension routing are not covered yet."),
+ "C19": dict(ref="DESIGN.md §4 C19",
+   text="Bounded symbolic execution of the peer-facing parsers on arbitrary bytes: parseRawClientHello on every input of 0..52 bytes (62 thorough) with all bytes symbolic; the browser heuristics (looksLikeFirefox/Chrome/Edge/Safari/Tor, heartbeat) on arbitrary extension/curve/cipher lists; getVersion; clientHelloConn.Read for every split point of a record into reads (recorded info equals parse of the whole, bytes passed on unchanged); parseLinkHeader on every string <= 6 bytes over {<>;,=a space} and <= 3 arbitrary bytes. Any panic escaping is a violation; counterexamples are replayed natively.",
+   note="Bounds as stated; hello bodies of 42..43 bytes in the segmentation harness with one cut (two cuts thorough). fastcgi records, replacer and basicauth header parsing are not covered yet by this check."),
  "C17": dict(ref="DESIGN.md §4 C17",
    text="Bounded symbolic execution of the real limits code over go/ssa: every path of one Read step from an arbitrary reader state (remaining limit any int64>=0, buffer 0..4 bytes, underlying reader returning any count/error) ends in an SMT query pc∧¬assertion that is unsat; counterexamples are replayed natively.",
    note="Bounds: buffer length <= 4 bytes, one or two Read calls; limit value fully symbolic (64-bit). Trusted: go/ssa construction, the engine's instruction semantics (validated per run by native replay of sampled path witnesses), z3."),
@@ -10,7 +22,7 @@ claimed = {
 not_applicable = {
  "C07": "Not decidable by symbolic execution of casket's code: the observable is the fate of real connections on kernel sockets while descriptors are duplicated and net/http drains; a verdict would be about a hand-written model of the kernel and net/http, not about this code (DESIGN.md §4 C07).",
 }
-pending = ["C01","C02","C03","C04","C05","C06","C08","C09","C10","C11","C12","C13","C14","C15","C16","C18","C19","C20"]
+pending = ["C02","C03","C04","C06","C08","C09","C10","C11","C12","C14","C15","C16","C18","C20"]
 checks = []
 for pid, c in sorted(claimed.items()):
     checks.append({
